@@ -91,6 +91,16 @@ extern "C" void h_members(void) {
       vp_assert(&en.home_region() == &static_cast<const ipr::Enum&>(*e).region() && &en.lexical_region() == &en.home_region(), 14);
       vp_assert(&b.home_region().owner().get() == c && &b.home_region().enclosing() == w->unit.global_region(), 15);
    }
+   {  // mappings and lambdas nested in the parameter region of a mapping / lambda / class body, each with its own symbolic level (0 included,
+      // equal to, below or above the outer level): every parameter reports the level its own list was created with
+      uint64_t inner_lvl = nondet_ulong(); unsigned where = vp_pick(4); bool zero = vp_flag(); if (zero) inner_lvl = 0;
+      const ipr::Region& parent = where == 0 ? m->parameters().region() : where == 1 ? lam->parameters().region() : where == 2 ? static_cast<const ipr::Class&>(*c).region() : *w->unit.global_region();
+      auto* in_m = lx.make_mapping(parent, Mapping_level{ inner_lvl }); auto* in_l = lx.make_lambda(parent, Mapping_level{ inner_lvl });
+      const ipr::Parameter& ip = *in_m->param(*N[0], lx.int_type()); const ipr::Parameter& iq = *in_l->inputs.add_member(*N[1], lx.bool_type());
+      vp_assert(util::rep(ip.level()) == inner_lvl && util::rep(in_m->parameters().level()) == inner_lvl && util::rep(iq.level()) == inner_lvl && util::rep(in_l->parameters().level()) == inner_lvl, 16);
+      vp_assert(util::rep(ip.position()) == 0 && &ip.home_region() == &in_m->parameters().region() && &in_m->parameters().region().enclosing() == &parent && &in_l->parameters().region().enclosing() == &parent, 17);
+      vp_assert(util::rep(m->parameters().level()) == lvl, 18);      // and the outer list keeps its own
+   }
    vp_done();
 }
 // units: unnamed global namespace typed `namespace`; module units link back to their module
